@@ -458,9 +458,9 @@ func externName(f *types.Func) string {
 }
 
 func (w *world) decoderSchema(entry, rootPath string) ([]string, map[string][]string) {
-	_, fd := w.funcNamed(w.model, entry)
+	fd := w.decls[codecCore(w)[entry]]
 	if fd == nil {
-		failf("%s not found", entry)
+		failf("‹%s› not found", entry)
 	}
 	d := &decWalker{w: w, p: w.model, known: map[string][]string{}}
 	d.walkFunc(fd, rootPath)
@@ -746,9 +746,9 @@ func (e *encWalker) walkExpr(x ast.Expr, fr *encFrame) {
 }
 
 func (w *world) encoderSchema(entry, rootPath string) ([]string, map[string][]string) {
-	_, fd := w.funcNamed(w.model, entry)
+	fd := w.decls[codecCore(w)[entry]]
 	if fd == nil {
-		failf("%s not found", entry)
+		failf("‹%s› not found", entry)
 	}
 	e := &encWalker{w: w, p: w.model, always: map[string][]string{}}
 	fr := &encFrame{refs: map[types.Object]encRef{}, consts: map[types.Object]string{}}
@@ -785,11 +785,142 @@ func (w *world) encoderSchema(entry, rootPath string) ([]string, map[string][]st
 
 // ---------- entry points ----------
 
+// codecCore finds the functions every (un)marshalling entry point funnels into, by what they are
+// rather than by name: the plain function that reads a flag (segment) from a *jreader.Reader into
+// a *FeatureFlag (*Segment), and the innermost plain function that is handed a FeatureFlag
+// (Segment) and a *jwriter.Writer. PreprocessFlag / PreprocessSegment are exported API.
+func codecCore(w *world) map[string]*types.Func {
+	roles := map[string][]*types.Func{}
+	paramKinds := func(f *types.Func) (reader, writer bool, item string, ptr bool, n int) {
+		sig := f.Type().(*types.Signature)
+		n = sig.Params().Len()
+		for i := 0; i < n; i++ {
+			t := sig.Params().At(i).Type()
+			isPtr := false
+			if p, ok := t.(*types.Pointer); ok {
+				t, isPtr = p.Elem(), true
+			}
+			switch {
+			case namedFrom(t, jreaderPath, "Reader") && isPtr:
+				reader = true
+			case namedFrom(t, jwriterPath, "Writer") && isPtr:
+				writer = true
+			case namedFrom(t, w.model.PkgPath, "FeatureFlag"):
+				item, ptr = "flag", isPtr
+			case namedFrom(t, w.model.PkgPath, "Segment"):
+				item, ptr = "segment", isPtr
+			}
+		}
+		return
+	}
+	for f := range w.decls {
+		if f.Pkg() != w.model.Types || f.Type().(*types.Signature).Recv() != nil {
+			continue
+		}
+		reader, writer, item, ptr, n := paramKinds(f)
+		if n != 2 || item == "" {
+			continue
+		}
+		if reader && ptr {
+			roles[item+"-decoder"] = append(roles[item+"-decoder"], f)
+		}
+		if writer && !ptr {
+			roles[item+"-encoder"] = append(roles[item+"-encoder"], f)
+		}
+	}
+	out := map[string]*types.Func{}
+	sp := w.spkgs[w.model.PkgPath]
+	reachOf := func(fn *ssa.Function) map[*ssa.Function]bool {
+		reach := map[*ssa.Function]bool{}
+		var visit func(f *ssa.Function)
+		visit = func(f *ssa.Function) {
+			if reach[f] {
+				return
+			}
+			reach[f] = true
+			for _, b := range f.Blocks {
+				for _, ins := range b.Instrs {
+					if c, ok := ins.(ssa.CallInstruction); ok {
+						if sc := c.Common().StaticCallee(); sc != nil && sc.Pkg == sp {
+							visit(sc)
+						}
+					}
+				}
+			}
+			for _, an := range f.AnonFuncs {
+				visit(an)
+			}
+		}
+		visit(fn)
+		return reach
+	}
+	entries := []map[*ssa.Function]bool{}
+	for _, fn := range w.moduleFunctions(w.model.PkgPath) {
+		if strings.Contains(strings.ToLower(fn.Name()), "marshal") && fn.Synthetic == "" && ast.IsExported(fn.Name()) {
+			entries = append(entries, reachOf(fn))
+		}
+	}
+	for role, fs := range roles {
+		// the funnel: reached from every entry point that reaches any candidate of this role, and
+		// not itself reached from another such candidate (helpers with the same signature)
+		kept := []*ssa.Function{}
+		for _, f := range fs {
+			sf := w.prog.FuncValue(f)
+			ok := sf != nil
+			for _, e := range entries {
+				any := false
+				for _, g := range fs {
+					if sg := w.prog.FuncValue(g); sg != nil && e[sg] {
+						any = true
+					}
+				}
+				if any && !e[sf] {
+					ok = false
+				}
+			}
+			if ok {
+				kept = append(kept, sf)
+			}
+		}
+		outer := []*ssa.Function{}
+		for _, c := range kept {
+			inner := false
+			for _, d := range kept {
+				if d != c && reachOf(d)[c] {
+					inner = true
+				}
+			}
+			if !inner {
+				outer = append(outer, c)
+			}
+		}
+		if len(outer) != 1 {
+			failf("expected one ‹%s› function in ldmodel, found %d", role, len(outer))
+		}
+		out[role] = outer[0].Object().(*types.Func)
+	}
+	for _, role := range []string{"flag-decoder", "segment-decoder", "flag-encoder", "segment-encoder"} {
+		if out[role] == nil {
+			failf("no ‹%s› function found in ldmodel", role)
+		}
+	}
+	for role, name := range map[string]string{"flag-preprocess": "PreprocessFlag", "segment-preprocess": "PreprocessSegment"} {
+		f, _ := w.funcNamed(w.model, name)
+		if f == nil {
+			failf("%s not found", name)
+		}
+		out[role] = f
+	}
+	return out
+}
+
 // entryPoints: for every function or method of ldmodel whose name says it (un)marshals, which of
 // the core codec functions it reaches through static calls inside the package.
 func entryPoints(w *world, tagLabel string) []pair {
-	core := map[string]bool{"marshalFeatureFlagToWriter": true, "marshalSegmentToWriter": true, "readFeatureFlag": true,
-		"readSegment": true, "PreprocessFlag": true, "PreprocessSegment": true}
+	core := map[*types.Func]string{}
+	for role, f := range codecCore(w) {
+		core[f] = "‹" + role + "›"
+	}
 	sp := w.spkgs[w.model.PkgPath]
 	if sp == nil {
 		failf("no SSA for ldmodel")
@@ -824,8 +955,8 @@ func entryPoints(w *world, tagLabel string) []pair {
 		visit(fn)
 		hit := []string{}
 		for f := range reach {
-			if core[f.Name()] && f.Signature.Recv() == nil {
-				hit = append(hit, f.Name())
+			if obj, ok := f.Object().(*types.Func); ok && core[obj] != "" {
+				hit = append(hit, core[obj])
 			}
 		}
 		sort.Strings(hit)
@@ -872,7 +1003,7 @@ func tableFallback(name string) string {
 
 func emitCodec(w *world, o *out, repo string) {
 	for _, s := range []struct{ def, entry, root string }{
-		{"flagDecoder", "readFeatureFlag", "flag"}, {"segmentDecoder", "readSegment", "segment"}} {
+		{"flagDecoder", "flag-decoder", "flag"}, {"segmentDecoder", "segment-decoder", "segment"}} {
 		s := s
 		o.guard(s.def, listFallback(s.def)+"\n"+tableFallback(s.def+"Known"), func() {
 			lines, known := w.decoderSchema(s.entry, s.root)
@@ -881,7 +1012,7 @@ func emitCodec(w *world, o *out, repo string) {
 		})
 	}
 	for _, s := range []struct{ def, entry, root string }{
-		{"flagEncoder", "marshalFeatureFlagToWriter", "flag"}, {"segmentEncoder", "marshalSegmentToWriter", "segment"}} {
+		{"flagEncoder", "flag-encoder", "flag"}, {"segmentEncoder", "segment-encoder", "segment"}} {
 		s := s
 		o.guard(s.def, listFallback(s.def)+"\n"+tableFallback(s.def+"Always"), func() {
 			lines, always := w.encoderSchema(s.entry, s.root)
